@@ -364,9 +364,10 @@ fn paint_file_path_with_line_number(
     separator: &str,
     config: &Config,
 ) -> String {
+    // (--color-only writes the line as it came: nothing is put in front of it)
     let file_style = match include_file_path {
-        HunkHeaderIncludeFilePath::Yes => Some(*file_style),
-        HunkHeaderIncludeFilePath::No => None,
+        HunkHeaderIncludeFilePath::Yes if !config.color_only => Some(*file_style),
+        _ => None,
     };
     let line_number_style = if matches!(include_line_number, HunkHeaderIncludeLineNumber::Yes)
         && line_number.is_some()
@@ -400,6 +401,7 @@ fn write_to_output_buffer(
 ) {
     if matches!(include_hunk_label, HunkHeaderIncludeHunkLabel::Yes)
         && !config.hunk_label.is_empty()
+        && !config.color_only
     {
         let _ = write!(
             &mut painter.output_buffer,
